@@ -43,6 +43,7 @@ def run(ctx):
     # (b) schedules: one fault-free walk per scenario, faulty walks with budget 2
     jobs = []
     nscen = 0
+    nretry = 0
     for budget, walks, maxev in ((0, 400 if thorough else 130, 90), (2, 1600 if thorough else 260, 50)):
         p = os.path.join(cdir, "MC_Blockwise_gen_%d.cfg" % budget)
         with open(p, "w") as f:
@@ -85,6 +86,24 @@ def run(ctx):
                         if seen_c2s >= nth and seen_c2s >= 2:
                             acts += [{"a": "deliver", "d": d, "k": 0} for _ in range(4) for d in ("s2c", "c2s")]
                             jobs.append({"mode": "layerc", "p": pp, "acts": acts})
+                    # directed: the transfer is abandoned after the n-th response (the peer goes silent, the caller gives up), the
+                    # transfer timeout elapses WITHOUT a sweep, and the application retries with the same token
+                    ns2c = sum(1 for a in h["acts"] if a["a"] == "deliver" and a["d"] == "s2c")
+                    for nth in (1, 2):
+                        if ns2c <= nth:
+                            continue
+                        acts, cnt = [], 0
+                        for a in h["acts"]:
+                            acts.append(a)
+                            if a["a"] == "deliver" and a["d"] == "s2c":
+                                cnt += 1
+                                if cnt == nth:
+                                    break
+                        for unswept in ("c2s", "s2c"):      # whose entries are still in its caches, expired: the client's / the server's
+                            acts2 = acts + [{"a": "abandon", "d": "c2s", "k": 0}, {"a": "lapse", "d": unswept, "k": 0}, {"a": "restart", "d": "c2s", "k": 0}]
+                            acts2 += [a for a in h["acts"] if a["a"] != "start"] + [{"a": "deliver", "d": d, "k": 0} for _ in range(3) for d in ("c2s", "s2c")]
+                            jobs.append({"mode": "layer", "p": pp, "acts": acts2})
+                            nretry += 1
     # (c) directed schedules: a fault-free exchange of every scenario in which the server's buffers time out once after
     #     1 / 2 delivered responses (a GET continuation then executes the application again: new representation)
     ndir = 0
@@ -108,6 +127,7 @@ def run(ctx):
                 jobs.append({"mode": "layer", "p": pp, "acts": h["acts"]})
                 ndir += 1
     ctx.cov["directed_timeout_schedules"] = ndir
+    ctx.cov["directed_retry_after_abandon_schedules"] = nretry
     if not jobs:
         raise vf.Machinery("no schedules generated")
     jpath = os.path.join(ctx.work, "jobs.ndjson")
